@@ -26,6 +26,9 @@ type Op struct {
 	Keys  []string      `json:"keys,omitempty"`
 	D     time.Duration `json:"d,omitempty"`
 	Task  int           `json:"task,omitempty"`
+	// Abandon: the caller gives up on this mutation - 1: its context is already cancelled,
+	// 2..: another task cancels the context after that many scheduling points
+	Abandon int `json:"abandon,omitempty"`
 }
 
 type Plan struct {
